@@ -15,16 +15,16 @@ static std::vector<long long> csr_ll(Matrix* M, bool vals = true) {
     return f;
 }
 // M-matrix-like (positive diagonal, non-positive off-diagonals), some rows with zero row sum, some decoupled rows
-static vh::Trip gen_mmatrix(vh::Rng& g, int n, bool symmetric_pattern)
+static vh::Trip gen_mmatrix(vh::Rng& g, int n, bool symmetric_pattern, bool twoscale = false)
 {
     vh::Trip t; t.n_rows = t.n_cols = n; std::vector<double> rs(n, 0.0);
     auto has = [&](int i, int j) { for (size_t p = 0; p < t.r.size(); p++) if (t.r[p] == i && t.c[p] == j) return true; return false; };
-    int m = g.range(n, 3 * n);
+    int m = twoscale ? g.range(2 * n, 5 * n) : g.range(n, 3 * n);
     for (int k = 0; k < m && n > 1; k++) { int i = g.below(n), j = g.below(n); if (i == j || has(i, j)) continue;
         if (i % 7 == 6 || j % 7 == 6) continue;            // decoupled vertices
-        double w = 0.125 * g.range(1, 32);
+        double w = 0.125 * g.range(1, 32); if (twoscale) w = (w < 1.5) ? 0.125 : 2.0;      // weak and strong couplings side by side
         t.r.push_back(i); t.c.push_back(j); t.v.push_back(-w); rs[i] += w;
-        if (symmetric_pattern && !has(j, i)) { double w2 = g.coin() ? w : 0.125 * g.range(1, 32); t.r.push_back(j); t.c.push_back(i); t.v.push_back(-w2); rs[j] += w2; } }
+        if (symmetric_pattern && !has(j, i)) { double w2 = g.coin() ? w : 0.125 * g.range(1, 32); if (twoscale) w2 = (w2 < 1.5) ? 0.125 : 2.0; t.r.push_back(j); t.c.push_back(i); t.v.push_back(-w2); rs[j] += w2; } }
     for (int i = 0; i < n; i++) { double shift = g.coin() ? 0.0 : 0.125 * g.range(1, 8); if (rs[i] == 0) shift = 1.0;
         t.r.push_back(i); t.c.push_back(i); t.v.push_back(rs[i] + shift); }
     return t;
@@ -58,15 +58,19 @@ int main(int argc, char** argv)
     int stride4 = (E.thorough || (!seq && np == 2)) ? 1 : 7;     // two ranks: all of them (a rank without halo that others depend on)
     int nenum = c12 ? 0 : (64 + (4096 + stride4 - 1) / stride4);
     if (!seq && np > 4) nenum = 0;
-    for (int it = 0; it < ncases + nenum; it++)
+    // C12, after the regular cases (their numbers stay): two-scale couplings (0.125 and 2) with threshold 1/4, so that rows
+    // have weak couplings to coarse points next to strong ones, across process boundaries too
+    int nextra12 = c12 ? ncases : 0;
+    for (int it0 = 0; it0 < ncases + nenum + nextra12; it0++)
     {
-        bool enumer = it >= ncases;
+        bool twoscale = it0 >= ncases + nenum; int it = twoscale ? (it0 - ncases - nenum) : it0;
+        bool enumer = !twoscale && it >= ncases;
         int cap = 2 + std::min(28, it / 2);
         int n = enumer ? 0 : std::max(seq ? 1 : np, g.range(1, cap + (seq ? 0 : np)));
         vh::Trip t; double theta; std::vector<double> w; int split, interp;
         if (!enumer) {
-            t = gen_mmatrix(g, n, g.coin(2, 3));
-            double thetas[] = { 0.0, 0.25, 0.5, 0.125 }; theta = thetas[g.below(4)];
+            t = gen_mmatrix(g, n, g.coin(2, 3), twoscale);
+            double thetas[] = { 0.0, 0.25, 0.5, 0.125 }; theta = thetas[g.below(4)]; if (twoscale) theta = 0.25;
             w = gen_weights(g, n);
             split = g.below(5); interp = g.below(3);
         } else {
